@@ -82,6 +82,9 @@ QJsonObject generate()
     if (prop == "C08") compress = true;
     if (prop == "C09") { daily = chance(90); if (N == 1) N = 3; }
     if (L == 0 && !startup && !daily) { if (chance(50)) daily = true; else L = 10; }
+    // "rotation indices crossing 9->10, 99->100": a long run of rotations on one calendar day (every write rotates)
+    const bool longRun = (prop == "C06" && chance(5)) || ((prop == "C05" || prop == "C09") && chance(2));
+    if (longRun) { L = 1; if (N == 1 || N > 4) N = pick(2, 4); startup = false; }
     cfg["L"] = L;
     cfg["N"] = N;
     cfg["startup"] = startup;
@@ -92,12 +95,14 @@ QJsonObject generate()
     cfg["gran"] = grans[pick(0, 4)];
     long long start = kEpoch0 + (long long)pick(0, 86399) * 1000 + pick(0, 999);
     if (chance(20)) start = kEpoch0 + kDayMs - pick(1, 3000); // just before midnight
+    if (longRun) start = kEpoch0 + 3600000; // early in the day: the whole run stays on one date
     cfg["start"] = QString::number(start);
 
     QJsonObject c;
     c["cfg"] = cfg;
     QJsonArray ops;
     int n = 1 + sized(0, 59);
+    if (longRun) n = pick(104, 135);
     long long now = start;
     int widx = 0;
     const bool big = prop == "C08";
@@ -105,7 +110,8 @@ QJsonObject generate()
         QJsonObject o;
         int k = pick(0, 99);
         const bool c06 = prop == "C06";
-        const int wShare = c06 ? 62 : 55, advShare = c06 ? 12 : 18, restartShare = c06 ? 10 : 12, flushShare = 3;
+        int wShare = c06 ? 62 : 55, advShare = c06 ? 12 : 18, restartShare = c06 ? 10 : 12, flushShare = 3;
+        if (longRun) { wShare = 96; advShare = 0; restartShare = 3; flushShare = 0; }
         if (k < wShare) {
             if ((big && chance(12)) || (!big && compress && prop == "C05" && chance(3))) { // C05 too: records inside compressed files beyond the 8 KiB CRC buffer
                 o["o"] = "big";
@@ -347,11 +353,21 @@ bool check(World &w, std::vector<FileSnap> &files, bool afterWrite, Violation &v
 
     // ---- resolve record ranges, newest to oldest (C05: whole consecutive records, nothing duplicated or reordered) ----
     long long nextStart = total;
+    // does `content` occur in the written stream only at positions that cut a record in two? (then a record does not lie within one file: C07 as well)
+    auto cutsARecord = [&](const std::string &content) {
+        if (content.empty()) return false;
+        bool any = false;
+        for (size_t pos = w.all.find(content); pos != std::string::npos; pos = w.all.find(content, pos + 1)) {
+            any = true;
+            if (w.boundaryIndex((long long)pos) >= 0 && w.boundaryIndex((long long)(pos + content.size())) >= 0) return false; // an aligned occurrence exists: misplaced, not split
+        }
+        return any;
+    };
     if (active) {
         const long long startByte = (long long)w.all.size() - (long long)active->content.size();
         long long a = startByte >= 0 ? w.boundaryIndex(startByte) : -1;
         if (a < 0 || w.all.compare(size_t(startByte), std::string::npos, active->content) != 0) {
-            v = { "C05", "the active file (" + std::to_string(active->content.size()) + " bytes) is not the tail of the written stream at a record boundary (records written: " + std::to_string(total) + ")" };
+            v = { cutsARecord(active->content) ? "C05,C07" : "C05", "the active file (" + std::to_string(active->content.size()) + " bytes) is not the tail of the written stream at a record boundary (records written: " + std::to_string(total) + ")" };
             return false;
         }
         active->a = a;
@@ -380,6 +396,7 @@ bool check(World &w, std::vector<FileSnap> &files, bool afterWrite, Violation &v
         if (matches > 1) w.ambiguous++;
         if (found < 0) {
             std::string tags = f->gz ? "C05,C08" : "C05";
+            if (cutsARecord(f->content)) tags += ",C07";
             v = { tags, "rotated file '" + f->name + "' (" + std::to_string(sz) + " bytes) is not a run of whole consecutive records of the written stream placed before the files that follow it (duplicated, reordered, split or foreign bytes)" };
             return false;
         }
